@@ -442,6 +442,11 @@ theorem checked_cache_reads_eq_spec (V : Type) (p : CProg) (h : cacheWF p = true
   have := reads_eq_spec_of_ok ok fs {} none rfl
   exact ⟨ok, this.1, by rw [this.2]; simp⟩
 
+/-- **The checker is exact**: it accepts a program iff the program follows the protocol for every type of values
+(so a rearrangement of a template is accepted exactly when it keeps the behaviour). -/
+theorem cache_checker_exact (p : CProg) : cacheWF p = true ↔ ∀ V : Type, CacheOK V p :=
+  ⟨fun h V => cacheOK_of_cacheWF V p h, fun h => cacheWF_of_cacheOK p (h Bool)⟩
+
 /-- **The per-run obligation**: the programs extracted from the templates of exporter.py as they are NOW parse and
 pass the checker.  (Nothing else in this section depends on how the templates are written.) -/
 theorem generated_cache_methods_wf :
